@@ -204,6 +204,12 @@ def check(ctx):
                              ["sam", "variants", "-s", samp, "-a", ap_], None))
         # the --reference given with a SAM file has to be the sequence the SAM header describes (@SQ LN)
         gff_noreg = W("anno_noregion.gff", anno.render_gff(genome, S["feats"], seqregion=False))
+        # ... in COLUMNS: a --reference row with a gap column has as many bases as @SQ LN says and one column more
+        for where, k in (("first", 0), ("middle", L // 2), ("last", L)):
+            gapref = W("gapref_%s.fasta" % where, fasta([("REF", genome[:k] + "-" + genome[k:])]))
+            runs.append(("sam toPairAlign: --reference with a gap column (%s), as many bases as @SQ LN" % where, sub(base["topa"], ref, gapref), None))
+            runs.append(("sam variants: --reference with a gap column (%s), as many bases as @SQ LN" % where, sub(base["sam variants"], ref, gapref), None))
+            runs.append(("sam variants --aggregate: --reference with a gap column (%s), as many bases as @SQ LN" % where, sub(base["sam variants"], ref, gapref) + ["--aggregate"], None))
         for what, rf in (("3 bases longer", longref), ("3 bases shorter", shortref)):
             runs.append(("sam toPairAlign: --reference %s than the @SQ line says" % what, sub(base["topa"], ref, rf), None))
             runs.append(("sam toPairAlign -o stdout: --reference %s than the @SQ line says" % what, ["sam", "toPairAlign", "-s", samp, "-r", rf, "-o", "stdout"], None))
